@@ -283,4 +283,62 @@ theorem tags_from_parts_whole_from_source (ts : TagsRec) (buf : Bytes) :
     · simp only [h1, h2, if_false, decide_false, Bool.or_false, Bool.false_eq_true]
       rw [tags_writer_from_source ts buf (by omega)]
 
+/-! ### the array loops of `Filter::from_parts` -/
+
+def flatW {α} (enc : α → Bytes) : List α → Bytes
+  | [] => []
+  | x :: xs => enc x ++ flatW enc xs
+
+theorem seq_write {α} (enc : α → Bytes) (w : Nat) (xs : List α) (A Y : Bytes) (p : Nat)
+    (hw : ∀ x ∈ xs, (enc x).length = w) (hp : p = A.length) :
+    xs.foldl (fun (st : Bytes × Nat) x =>
+        let (output, p) := st
+        let output := Src.wr output (p) (enc x)
+        let p := p + w
+        (output, p)) (A ++ Y, p) = (A ++ flatW enc xs ++ Y.drop (w * xs.length), p + w * xs.length) := by
+  induction xs generalizing A Y p with
+  | nil => simp [flatW]
+  | cons x xs ih =>
+    have hx : (enc x).length = w := hw x (by simp)
+    simp only [List.foldl_cons]
+    rw [wr_mid A Y (enc x) p hp]
+    rw [ih (A ++ enc x) (Y.drop (enc x).length) (p + w) (fun y hy => hw y (by simp [hy])) (by simp [hp, hx])]
+    simp [flatW, hx, List.drop_drop, Nat.mul_add, List.append_assoc]
+    constructor
+    · congr 1; omega
+    · omega
+
+theorem flatW_id : ∀ xs : List Bytes, flatW (fun x => x) xs = flat32 xs
+  | [] => rfl
+  | x :: xs => by simp [flatW, flat32, flatW_id xs]
+theorem flatW_kinds : ∀ ks : List Nat, flatW le16 ks = flatKinds ks
+  | [] => rfl
+  | k :: ks => by simp [flatW, flatKinds, flatW_kinds ks]
+
+
+/-- **the array loops of `Filter::from_parts`**, translated on every run (`Src.filterArraysWrite`): on a buffer whose first 32 bytes are
+the header, for all ids and authors of 32 bytes, all kinds and every tag section, they write exactly `flat32 ids ++ flat32 authors ++
+flatKinds kinds ++ tagBytes` after the header and leave the rest of the buffer alone - the tail of the model's `encodeFilterWith` -/
+theorem filter_arrays_from_source (ids authors : List Bytes) (kinds : List Nat) (tagBytes A Y : Bytes)
+    (hi : ∀ x ∈ ids, x.length = 32) (ha : ∀ x ∈ authors, x.length = 32) (hA : A.length = 32) :
+    Src.filterArraysWrite ids authors kinds tagBytes (A ++ Y) =
+      A ++ flat32 ids ++ flat32 authors ++ flatKinds kinds ++ tagBytes ++
+        Y.drop (32 * ids.length + 32 * authors.length + 2 * kinds.length + tagBytes.length) := by
+  unfold Src.filterArraysWrite
+  have h1 := seq_write (fun x : Bytes => x) 32 ids A Y 32 hi hA.symm
+  simp only [] at h1
+  simp only [h1]
+  have h2 := seq_write (fun x : Bytes => x) 32 authors (A ++ flatW (fun x => x) ids) (Y.drop (32 * ids.length)) (32 + 32 * ids.length) ha
+    (by rw [List.length_append, hA, flatW_id, flat32_length ids hi]; omega)
+  simp only [] at h2
+  simp only [h2]
+  have h3 := seq_write le16 2 kinds (A ++ flatW (fun x => x) ids ++ flatW (fun x => x) authors) ((Y.drop (32 * ids.length)).drop (32 * authors.length))
+    (32 + 32 * ids.length + 32 * authors.length) (fun _ _ => rfl)
+    (by rw [List.length_append, List.length_append, hA, flatW_id, flatW_id, flat32_length ids hi, flat32_length authors ha]; omega)
+  simp only [h3]
+  rw [wr_mid _ _ tagBytes _ (by
+    rw [List.length_append, List.length_append, List.length_append, hA, flatW_id, flatW_id, flatW_kinds, flat32_length ids hi,
+      flat32_length authors ha, flatKinds_length]; omega)]
+  simp only [flatW_id, flatW_kinds, List.drop_drop]
+
 end Pocket
